@@ -42,7 +42,7 @@ def parse_mir(text):
     i = 0; n = len(lines)
     while i < n:
         ln = lines[i]
-        m1 = re.match(r"^const (.+): (\w+) = const (.+);$", ln)
+        m1 = re.match(r"^const (.+?): (.+?) = const (.+);$", ln)
         if m1:
             f = Fn(m1.group(1)); f.is_const = True; f.ret_ty = m1.group(2); f.blocks = {}; f.const_value = m1.group(3)
             fns[f.name] = f
